@@ -673,6 +673,54 @@ class _SplitTupleAssign(ast.NodeTransformer):
         return n
 
 
+def _expand_kwargs_dicts(fn):
+    """`common = dict(a=x, b=y)` ... `f(**common)` ... `g(**common)`: the keyword arguments are written out at the calls (the local
+    is only ever splatted, its values are plain names / attributes / constants)."""
+    import copy
+    for _ in range(4):
+        cands = {}
+        for n in ast.walk(fn):
+            if isinstance(n, ast.Assign) and len(n.targets) == 1 and isinstance(n.targets[0], ast.Name):
+                v, pairs = n.value, None
+                if isinstance(v, ast.Call) and isinstance(v.func, ast.Name) and v.func.id == "dict" and not v.args and v.keywords \
+                        and all(k.arg is not None for k in v.keywords):
+                    pairs = [(k.arg, k.value) for k in v.keywords]
+                elif isinstance(v, ast.Dict) and v.keys and all(isinstance(k, ast.Constant) and isinstance(k.value, str) and k.value.isidentifier()
+                                                                 for k in v.keys):
+                    pairs = [(k.value, val) for k, val in zip(v.keys, v.values)]
+                if pairs and all(isinstance(val, (ast.Name, ast.Attribute, ast.Constant)) for _, val in pairs):
+                    cands.setdefault(n.targets[0].id, []).append((n, pairs))
+        done = False
+        for name, defs in cands.items():
+            if len(defs) != 1:
+                continue
+            node, pairs = defs[0]
+            uses = [x for x in ast.walk(fn) if isinstance(x, ast.Name) and x.id == name and x is not node.targets[0]]
+            splats = [k for c in ast.walk(fn) if isinstance(c, ast.Call) for k in c.keywords if k.arg is None and isinstance(k.value, ast.Name)
+                      and k.value.id == name]
+            if not splats or len(uses) != len(splats):
+                continue
+            for c in ast.walk(fn):
+                if isinstance(c, ast.Call) and any(k.arg is None and isinstance(k.value, ast.Name) and k.value.id == name for k in c.keywords):
+                    new = []
+                    for k in c.keywords:
+                        if k.arg is None and isinstance(k.value, ast.Name) and k.value.id == name:
+                            new.extend(ast.keyword(arg=a, value=copy.deepcopy(v)) for a, v in pairs)
+                        else:
+                            new.append(k)
+                    c.keywords = new
+            for x in ast.walk(fn):
+                for fld in ("body", "orelse", "finalbody"):
+                    blk = getattr(x, fld, None)
+                    if isinstance(blk, list) and any(s_ is node for s_ in blk):
+                        setattr(x, fld, [s_ for s_ in blk if s_ is not node] or [ast.Pass()])
+            done = True
+            break
+        if not done:
+            break
+    return fn
+
+
 class _LoopGuards(ast.NodeTransformer):
     """In a loop body, `if c: continue` followed by REST is `if not c: REST` (the structured form the code base uses and the
     loop rules read: "nothing leaves the loop early" is about items that are skipped without being looked at)."""
@@ -708,6 +756,9 @@ def lower_idioms(cur_trees):
     for t in cur_trees.values():
         _Lower().visit(t)
         _SplitTupleAssign().visit(t)
+        for n_ in ast.walk(t):
+            if isinstance(n_, ast.FunctionDef):
+                _expand_kwargs_dicts(n_)
         _LoopGuards().visit(t)
         ast.fix_missing_locations(t)
 
